@@ -3,7 +3,7 @@
 import glob, json, os, subprocess, sys
 from concurrent.futures import ThreadPoolExecutor
 a = sys.argv[1:]
-dirs = sorted(glob.glob(a[0]))
+dirs = sorted(d for d in glob.glob(a[0]) if os.path.isdir(d))
 tier = a[a.index("--tier") + 1] if "--tier" in a else "quick"
 jobs = int(a[a.index("--jobs") + 1]) if "--jobs" in a else 4
 extra = {"C06-1": ["C14"], "C06-2": ["C09"], "C06-R2-1": ["C14"], "C13-R2-1": ["C09"], "C17-R3-2": ["C13"],
